@@ -577,7 +577,17 @@ def add_warm(rng, c):
     their schema (a field added to a schema is appended)"""
     leaves = leaf_paths(c["fields"])
     flips = [p for p, nd in leaves if rng.random() < 0.35]
-    cand = [p for p, nd in leaves if p not in flips and not nd["callable"] and nd["kind"][0] != "flag"]
+    def under_default_list(path):
+        # a list of configurations with DEFAULT items is built when the configuration is: its item schema cannot grow a
+        # field afterwards that the default maps already mention
+        fs = c["fields"]
+        for k in path[:-1]:
+            nd = dict(fs)[k]
+            if nd["t"] == "cfglist" and nd.get("default") is not None:
+                return True
+            fs = nd["fields"]
+        return False
+    cand = [p for p, nd in leaves if p not in flips and not nd["callable"] and nd["kind"][0] != "flag" and not under_default_list(p)]
     late = rng.sample(cand, min(len(cand), rng.choice([0, 1, 1, 2, 3])))
     for p in late:
         fs = c["fields"]
